@@ -211,6 +211,12 @@ def check_meta(case, rec):
             require(f2.shape == shape and v2.shape == shape, f"structured result has shape {f2.shape}, expected {shape}", dict(tags, kind="mesh_shape"))
             require(float(np.max(np.abs(f2.reshape(-1) - f0))) <= t and float(np.max(np.abs(v2.reshape(-1) - v0))) <= tv,
                     "structured mesh gives a different result than the equivalent point list", dict(tags, kind="mesh"))
+            # structured mesh evaluated chunk by chunk (the drift / covariance columns of every chunk must be those of its own nodes)
+            f5, v5 = lib(k.structured, axes, post_process=False, chunk_size=case["chunk"], _tags=tags)
+            rec.label("structured_chunked" + ("_multi" if grid.shape[1] > case["chunk"] else "_single"))
+            require(float(np.max(np.abs(f5.reshape(-1) - f0))) <= t and float(np.max(np.abs(v5.reshape(-1) - v0))) <= tv,
+                    f"structured mesh with chunk_size={case['chunk']} differs from the unchunked point list (field {float(np.max(np.abs(f5.reshape(-1) - f0))):.3g}, "
+                    f"variance {float(np.max(np.abs(v5.reshape(-1) - v0))):.3g})", dict(tags, kind="mesh_chunk"))
         # permutation of targets
         p = prs.permutation(grid.shape[1])
         kwp = {kk: vv[:, p] for kk, vv in kw.items()}
